@@ -580,6 +580,9 @@ class Lib:
                 C.no_insert = True        # Counter.__missing__ returns 0 without inserting the key
                 run.assume(so.forall(d.vsort, lambda x: C.dom[x] == so.exists(d.ksort, lambda k: And(d.dom[k], d.val[k] == x))))
                 run.assume(so.forall(d.vsort, lambda x: If(C.dom[x], C.val[x] >= 1, C.val[x] == 0)))
+                # the same fact in a trigger-friendly direction: every value that occurs is a key of the Counter
+                run.assume(so.forall(d.ksort, lambda k: Implies(d.dom[k], C.dom[d.val[k]]),
+                                     pats=(lambda k: [d.val[k]]) if not so.is_finite_sort(d.ksort) else None))
                 if z3.is_true(z3.simplify(so.forall(d.ksort, lambda k: d.dom[k]))) or d.name == 'degree':
                     C.count_of = d.val
                     if so.Mode.finite:
